@@ -341,6 +341,8 @@ func applyDocEdit(doc *JV, op Op) bool {
 			}
 		}
 		return n > 0
+	case "idcodes":
+		return applyIDCodes(doc, op.I, op.J)
 	case "owncountry":
 		// a combo that names a country: the document's own (redundant, the
 		// calculation drops it) or, every third time, the customer's
@@ -557,7 +559,7 @@ func applyDocEdit(doc *JV, op Op) bool {
 	return false
 }
 
-var editKinds = []string{"qty", "price", "rmline", "dupline", "note", "rounding", "custname", "code", "breakdown", "linedisc", "linecharge", "docdisc", "advances", "codeweird", "addrweird", "taxidweird", "amountprec", "mixrates", "mixrates", "rmdefaulted", "sloppy", "sloppy", "sloppy", "inboxweird", "scenario", "scenario", "fx", "valuedate", "transplant", "transplant", "docfixed", "paykeys", "graft", "graft", "extcode", "extcode", "addcat", "duedates", "owncountry"}
+var editKinds = []string{"qty", "price", "rmline", "dupline", "note", "rounding", "custname", "code", "breakdown", "linedisc", "linecharge", "docdisc", "advances", "codeweird", "addrweird", "taxidweird", "amountprec", "mixrates", "mixrates", "rmdefaulted", "sloppy", "sloppy", "sloppy", "inboxweird", "scenario", "scenario", "fx", "valuedate", "transplant", "transplant", "docfixed", "paykeys", "graft", "graft", "extcode", "extcode", "addcat", "duedates", "owncountry", "idcodes"}
 
 func genEdit(r *rand.Rand, id int) Op {
 	k := Pick(r, editKinds)
@@ -599,6 +601,8 @@ func genEdit(r *rand.Rand, id int) Op {
 		op.I, op.J = int64(r.IntN(1<<12)), int64(r.IntN(1<<10))
 	case "paykeys":
 		op.I, op.J = int64(r.IntN(1<<10)), int64(r.IntN(1<<10))
+	case "idcodes":
+		op.I, op.J = int64(r.IntN(1<<16)), int64(r.IntN(1<<16))
 	case "docfixed":
 		op.S2 = Pick(r, []string{"10.126", "0.005", "3.14159", "7.5", "12.3449"})
 	case "transplant":
